@@ -36,7 +36,7 @@ def _extra(i, d):
     if name == "ex:u=uri":
         return ("ex:u", Identifier("http://x/y"))
     if name == "ex:l=lang":
-        return ("ex:l", Literal("bonjour", None, "fr"))
+        return ("ex:l", Literal("bonjour", None, "fr-CA"))
     if name == "prov:value":
         return ("prov:value", 7)
     if name == "prov:location":
